@@ -162,6 +162,19 @@ def gen_case(rng, op):
         return db, {"pairs": [(o, gen.gen_value(rng)) for o in sorted(set(pick() for _ in range(rng.randint(1, 5))))]}
     if op == "walk":
         return db, {"root": rng.choice((grp, entry, table))}
+    if op in ("multiwalk", "bulkwalk") and rng.random() < 0.5:
+        # sibling roots, among them pairs whose last arc starts with the same decimal
+        # digits (x.1 and x.10 .. x.13), the table's columns, in any order
+        subs = sorted({k[: len(grp) + 1] for k in db if k[: len(grp)] == grp and len(k) > len(grp)})
+        cols = sorted({k[: len(entry) + 1] for k in db if k[: len(entry)] == entry and len(k) > len(entry)})
+        pool = subs + cols
+        must = [r for r in subs if r[-1] in (1, 2)] + [r for r in subs if r[-1] in (10, 11, 12, 13, 20, 21)]
+        roots = list(dict.fromkeys(rng.sample(must, min(len(must), rng.randint(2, 4))) + rng.sample(pool, min(len(pool), rng.randint(0, 3)))))
+        rng.shuffle(roots)
+        a = {"roots": roots}
+        if op == "bulkwalk":
+            a["bulk"] = rng.choice((1, 3, 10))
+        return db, a
     if op == "multiwalk":
         return db, {"roots": [grp, table] if rng.random() < 0.5 else [table, grp]}
     if op == "bulkwalk":
